@@ -6,7 +6,7 @@ import Amoco.Model.SemDsl
 namespace Generated.Rv
 open Amoco.Rv
 
-/-- from amoco/arch/riscv/rv32i/asm.py (sha256 64f333c1b9f67b51) -/
+/-- from amoco/arch/riscv/rv32i/asm.py (sha256 f2793c951ab17f00) -/
 def rv32_tab : List (Mn × Sem) := [
   (.LUI, [(.assign .pc (.bin .add .pc .ilen)), (.guardNZ 0 (.assign (.opnd 0) (.opnd 1)))]),
   (.AUIPC, [(.guardNZ 0 (.assign (.opnd 0) (.bin .add .pc (.opnd 1)))), (.assign .pc (.bin .add .pc .ilen))]),
@@ -53,7 +53,7 @@ def rv32_tab : List (Mn × Sem) := [
 def rv32_extra : List String := []
 def rv32_notes : List String := []
 
-/-- from amoco/arch/riscv/rv64i/asm.py (sha256 105be8b3748f15df) -/
+/-- from amoco/arch/riscv/rv64i/asm.py (sha256 37fcd06204efbe85) -/
 def rv64_tab : List (Mn × Sem) := [
   (.LUI, [(.assign .pc (.bin .add .pc .ilen)), (.guardNZ 0 (.assign (.opnd 0) (.opnd 1)))]),
   (.AUIPC, [(.guardNZ 0 (.assign (.opnd 0) (.bin .add .pc (.opnd 1)))), (.assign .pc (.bin .add .pc .ilen))]),
